@@ -477,10 +477,13 @@ def _make_component_classes():
                     P = self._dense_partial(inputs, of, wrt)
                     if P is None:
                         continue
+                    # 0-d variables are handed out as python floats
                     if mode == 'fwd':
-                        d_outputs[of] += (P @ d_inputs[wrt].ravel()).reshape(d_outputs[of].shape)
+                        d_outputs[of] += (P @ np.ravel(d_inputs[wrt])).reshape(
+                            np.shape(d_outputs[of]))
                     else:
-                        d_inputs[wrt] += (P.T @ d_outputs[of].ravel()).reshape(d_inputs[wrt].shape)
+                        d_inputs[wrt] += (P.T @ np.ravel(d_outputs[of])).reshape(
+                            np.shape(d_inputs[wrt]))
 
     class ImpComp(om.ImplicitComponent, _Mixin):
         def initialize(self):
@@ -589,9 +592,9 @@ def _make_component_classes():
                     if P is None:
                         continue
                     if mode == 'fwd':
-                        d_residuals[of] -= (P @ d_inputs[wrt].ravel()).reshape(d_residuals[of].shape)
+                        d_residuals[of] -= (P @ np.ravel(d_inputs[wrt])).reshape(d_residuals[of].shape)
                     else:
-                        d_inputs[wrt] -= (P.T @ d_residuals[of].ravel()).reshape(d_inputs[wrt].shape)
+                        d_inputs[wrt] -= (P.T @ d_residuals[of].ravel()).reshape(np.shape(d_inputs[wrt]))
 
     return {'lin': LinComp, 'lin_mf': LinCompMF, 'imp': ImpComp, 'imp_mf': ImpCompMF}
 
